@@ -78,7 +78,7 @@ def evaluate(ctx, progs, res, only_cancel=None):
     model = ctx.model([T.model_line(p, c) for p, c, _o in flat])
     for i, (p, c, o) in enumerate(flat):
         got = T.fmt_obs(o)
-        case = {'program': T.ser(p), 'forms': _forms(p), 'readable': T.show(p), 'cancel': c}
+        case = {'program': T.ser_plain(p), 'forms': _forms(p), 'readable': T.show(p), 'cancel': c}
         for key, why in oracle(p, c, o):
             res.violation(key, case, why, impl=got)
         if model is not None:
@@ -90,7 +90,7 @@ def evaluate(ctx, progs, res, only_cancel=None):
         expired_before = any(e[2] == 1 for e in o.get('evs', []))
         res.count('delivered_after_inner_expiry', int(bool(o.get('deliv')) and expired_before))
         if o.get('deliv') and (expired_before or T.n_blocks(p) >= 2):
-            res.nontrivial((T.ser(p) + _forms(p), c))
+            res.nontrivial((T.ser_plain(p) + _forms(p), c))
         if o.get('deliv') and expired_before:
             res.sample({'program': T.show(p), 'cancel_at': c, 'impl': got})
     res['evaluations'] += len(flat)
